@@ -36,3 +36,61 @@ CHECKS["C13"] = {
                     "frame bytes come from an independent encoder of the Seata v1 frame layout"],
     "trusted_base": COMMON_TB,
 }
+
+HOOK_COMMITS = ["cf3ff38", "68dfd22"]
+
+TC_TB = COMMON_TB + ["the in-process coordinator stand-in (harness/tc): a fake getty.Session registered through the "
+                     "public OnOpen entry point; requests travel through the real GettyRemotingClient, session "
+                     "selection and futures table; only TCP and the byte codec are bypassed"]
+
+_tm_common = {
+    "level": "model_checking",
+    "legs": None,
+    "assumptions": ["the coordinator stand-in answers synchronously inside the client's WritePkg (reply decided at "
+                    "the moment the request is observed); a transport error is a WritePkg error",
+                    "cancellation is injected between protocol steps, not inside a blocked network call"],
+    "trusted_base": TC_TB,
+}
+
+CHECKS["C04"] = dict(_tm_common, **{
+    "level_text": "TM.tla states what the coordinator may observe from one WithGlobalTx scope and what the scope may "
+                  "return (one truthful decision, only by the launcher, retry only after a transport error and within "
+                  "the configured budget, nil only when earned, never a panic). TLC checks the design for every retry "
+                  "budget 0..3 and enumerates every behaviour of the environment (6 root modes x callback outcome "
+                  "nil/err/panic x begin reply ok/fail/transport error x every reply script up to 4 transport errors "
+                  "x cancellation at every step); each is replayed on the real tm.WithGlobalTx with real backoff and "
+                  "the recorded trace is validated by TLC against TM.tla.",
+    "level_note": "Trusted: TLC, the coordinator stand-in, the scenario interpreter in harness/cmd/tm. 'No reply' is "
+                  "represented by its observable consequence at this layer (an error from SendSyncRequest); the real "
+                  "20 s timeout is C14's. Bounds: one scope, <=4 transport errors per loop, budgets 0..3.",
+    "technique": "TLA+ spec + TLC exhaustive design check; TLC-enumerated fault/cancellation scenarios replayed on the "
+                 "real WithGlobalTx; TLC trace validation",
+    "mc": [("TM_MC", "TM_MC_C04.cfg", {"workers": 4, "env": {"MAXRETRY": str(r)}}) for r in (0, 1, 2, 3)],
+    "legs": [{
+        "name": "tm", "driver": "tm",
+        "gen": [("TM_MC", "TM_Gen_C04.cfg", {"MAXRETRY": str(r)}) for r in (0, 1, 2, 3)],
+        "trace": ("TM_Trace", "TM_Trace.cfg"),
+    }],
+})
+
+CHECKS["C07"] = dict(_tm_common, **{
+    "level_text": "TM.tla gives the propagation table (join / begin new / run without / refuse) and requires that the "
+                  "callback sees the right xid, that only the scope that began a transaction ends it, and that after a "
+                  "child scope returns the enclosing scope still sees its own xid, role and name. TLC checks the design "
+                  "for trees of depth 3 with 2 children and enumerates all scope trees (chains to depth 3; two children "
+                  "to depth 2) over 6 modes x {shared, fresh} context x {nil, err}; each tree is executed as nested real "
+                  "WithGlobalTx calls - fresh contexts are produced by the real gRPC interceptors, gin middleware and "
+                  "dubbo filter - and TLC validates the recorded trace.",
+    "level_note": "Trusted: TLC, the coordinator stand-in, the scenario interpreter, httptest/gin and hand-carried gRPC "
+                  "metadata / dubbo attachments standing for the network hop. Bounds: depth 3, 2 children.",
+    "technique": "TLA+ spec + TLC exhaustive design check; TLC-enumerated scope trees replayed as nested real "
+                 "WithGlobalTx calls through the real integrations; TLC trace validation",
+    "mc": [("TM_MC", "TM_MC_C07.cfg", {"workers": 8})],
+    "legs": [{
+        "name": "tm", "driver": "tm",
+        "gen_quick": [("TM_MC", "TM_Gen_C07.cfg", {"MAXDEPTH": "3", "MAXKIDS": "1"})],
+        "gen_thorough": [("TM_MC", "TM_Gen_C07.cfg", {"MAXDEPTH": "3", "MAXKIDS": "1"}),
+                         ("TM_MC", "TM_Gen_C07.cfg", {"MAXDEPTH": "2", "MAXKIDS": "2"})],
+        "trace": ("TM_Trace", "TM_Trace.cfg"),
+    }],
+})
